@@ -182,7 +182,8 @@ def list_chunk(args):
     x, y, s = P.EVar(0), P.EVar(1), P.Symbol('s0')
     eqpool = [(a, x), (a, y), (b, x), (P.Implies(a, b), P.Implies(x, y)), (P.Implies(a, a), P.Implies(x, y)),
               (x, x), (x, y), (P.neg(a), P.neg(s)), (P._and(a, b), P._and(y, y)), (s, s), (P.Implies(a, b), x),
-              (P.bot(), P.bot()), (P.Exists(0, a), P.Exists(0, y)), (P.Exists(0, a), P.Exists(1, y))]
+              (P.bot(), P.bot()), (P.Exists(0, a), P.Exists(0, y)), (P.Exists(0, a), P.Exists(1, y)),
+              (a, a), (a, b), (b, a), (P.Implies(a, b), P.Implies(a, b)), (P.App(b, a), P.App(s, a))]
     lists = [[]]
     for n in (1, 2, 3):
         lists += [list(t) for t in itertools.product(range(len(eqpool)), repeat=n)]
@@ -287,7 +288,7 @@ def main(argv=None) -> int:
     crow = list(range(len(universe(csize))))
     merge(chk, par.pmap(complete_chunk, [(ch, csize) for ch in par.chunks(crow, n)]), 'complete_', agg)
     # equation lists
-    nlists = 1 + 14 + 14 ** 2 + (14 ** 3 if thorough else 0)
+    nlists = 1 + 19 + 19 ** 2 + (19 ** 3 if thorough else 0)
     res = par.pmap(list_chunk, par.chunks(list(range(nlists)), n))
     merge(chk, [r[0] for r in res], 'lists_', agg)
     pool_n = 5 if thorough else 4
@@ -297,7 +298,7 @@ def main(argv=None) -> int:
     chk.set('distinct_nontrivial', agg.get('pairs_matched_nonempty', 0) + agg.get('complete_nonempty', 0)
             + agg.get('complete_empty_solution', 0) + agg.get('lists_solvable', 0) + agg.get('notation_evals', 0))
     chk.set('rule', 'all ordered (pattern, instance, seed) triples of S; all (substitution-free pattern, map) pairs; all equation '
-                    'lists up to length 2/3 over 14 equations; all (notation, argument tuple). Non-trivial = matching succeeded with '
+                    'lists up to length 2/3 over 19 equations; all (notation, argument tuple). Non-trivial = matching succeeded with '
                     'a non-empty matcher / a constructed instance / a solvable list / a notation application')
     chk.set('exhaustive', True)
     chk.set('detail', agg)
